@@ -56,6 +56,10 @@ fn main() {
         std::process::exit(64);
     };
     install_panic_hook();
+    if let Some(o) = &out {
+        let base = std::path::Path::new(o).parent().unwrap_or(std::path::Path::new(".")).join(format!("tmp-shard{}", shard));
+        set_scratch(base);
+    }
     let mut st = Stats::new(thorough);
 
     if let Some(cs) = case_seed {
